@@ -1,6 +1,7 @@
 """C03 — listener management and dispatch are thread-safe and linearizable"""
 import os
 
+import dc_domain
 import lc_domain
 import qc_domain
 import vlib
@@ -14,7 +15,9 @@ TRUSTED = [
     'tie A: tools/leaves/callbacklist.py (visit condition, removed-marker guards used by the sections)',
     'tie B: harness/clconc.cpp + harness/vsched.h (cooperative scheduler; the list mutex and currentCounter are the injected primitives); every visible action, call/visit, result and the final content compared',
     'assumed: sequential consistency; mutual exclusion of the injected mutex; std::shared_ptr control-block operations atomic',
-    'modelled not verified: the transcription coq/CLConc.lcode_of of each call (tied by correspondence); EventDispatcher adds listenerMutex around map lookup/insert with the list mutex nested inside for additions only (not replayed)',
+    'modelled not verified: the transcription coq/CLConc.lcode_of of each call (tied by correspondence)',
+    'tie B for the dispatcher: harness/dispconc.cpp (real EventDispatcher, listenerMutex = L, each list mutex = M<event>, registered when first locked) against the machine of coq/CLDispConc.v run by coq/CLDispRun.v (ocaml/driver_dispconc.ml); atomics are not scheduling points there; generator and monitors tools/dc_domain.py',
+    'tie A for the dispatcher: GenLocks (map accesses under listenerMutex; no member function takes entries out of the map)',
 ]
 
 
@@ -28,6 +31,34 @@ def corpus_cases():
     return out
 
 
+def dispatcher_corpus():
+    d = os.path.join(vlib.ROOT, 'corpus', 'dispconc')
+    out = []
+    if os.path.isdir(d):
+        for f in sorted(os.listdir(d)):
+            if f.endswith('.case'):
+                out += qc_domain.parse_cases(open(os.path.join(d, f)).read())
+    return out
+
+
+def run_dispatcher(ctx):
+    """the dispatcher with its two kinds of mutex: schedules replayed on the machine of CLDispConc.v and on the real
+    EventDispatcher under the cooperative scheduler"""
+    res = vlib.build_many(ctx, [dict(name='dispconc', src='dispconc.cpp', defs=[])])
+    binary, err = res['dispconc']
+    if binary is None:
+        raise RuntimeError('harness dispconc.cpp does not compile against /repo: %s' % err[-1500:])
+    cases = dispatcher_corpus()
+    n0 = len(cases)
+    for _ in range(ctx.budget(1200, 40000)):
+        cases.append(dc_domain.gen_case(ctx.rng.fork()))
+    st, model, texts = qc_domain.correspond(ctx, binary, cases, 'EventDispatcher under threads', driver='dispconc', monitors=dc_domain.monitors)
+    blocked = sum(1 for i, m in model.items() if any(l.startswith('act') for l in m))
+    return {'dispatcher_schedules_replayed_on_impl': st['compared'], 'dispatcher_visible_actions_compared': st['actions'],
+            'dispatcher_disagreements': st['disagreements'], 'dispatcher_monitor_alarms': st['monitor_alarms'],
+            'dispatcher_distinct_nontrivial': st['distinct'], 'dispatcher_corpus_cases': n0}
+
+
 def run(ctx):
     proof = vlib.coq_prove(ctx, FILES, leaves=['callbacklist', 'locks', 'spinlock'])
     res = vlib.build_many(ctx, [dict(name='clconc', src='clconc.cpp', defs=[])])
@@ -39,6 +70,7 @@ def run(ctx):
     for _ in range(ctx.budget(1500, 50000)):
         cases.append(lc_domain.gen_case(ctx.rng.fork()))
     st, model, texts = qc_domain.correspond(ctx, binary, cases, 'CallbackList under threads', driver='clconc', monitors=lc_domain.monitors)
+    dst = run_dispatcher(ctx)
     if not proof['ok'] and not ctx.violations:
         ctx.violation('# no failing schedule found by %d replayed schedules\n# broken obligation(s):\n# %s\n' % (st['compared'], '\n# '.join(proof['errors'])),
                       'proof obligation no longer checks: ' + '; '.join(proof['errors'])[:400], no_input=True)
@@ -58,6 +90,8 @@ def run(ctx):
         'monitor_alarms': st['monitor_alarms'],
         'header_sha': vlib.sha(os.path.join(vlib.REPO, 'include/eventpp/callbacklist.h')),
     })
+    ctx.coverage.update(dst)
+    ctx.coverage['evaluations'] += dst['dispatcher_schedules_replayed_on_impl']
     ctx.assumptions += ['PARTIAL: see level_note']
 
 
